@@ -14,20 +14,20 @@ var blockKeyFamilies = []string{"calcBlockPartKey", "calcBlockMetaKey", "calcBlo
 // keyFamiliesIn lists the key-constructor families used by calls matching callRe in f (and closures / one level of callees).
 func keyFamiliesIn(w *World, f *ssa.Function, callRe string) map[string]bool {
 	out := map[string]bool{}
-	rx := regexp.MustCompile(callRe)
 	var visit func(g *ssa.Function, d int)
 	visit = func(g *ssa.Function, d int) {
-		for _, call := range callInstrs(g) {
-			s := w.callStr(call)
-			if rx.MatchString(s) {
-				for _, fam := range blockKeyFamilies {
-					if strings.Contains(s, "store."+fam+"(") {
-						out[fam] = true
-					}
+		// writes of g itself or of helpers introduced later, rendered in g's terms
+		for _, dc := range w.deepCallsMatching(g, 2, callRe) {
+			s := dc.str()
+			for _, fam := range blockKeyFamilies {
+				if strings.Contains(s, "store."+fam+"(") {
+					out[fam] = true
 				}
 			}
-			if d > 0 {
-				if h := staticCallee(call); h != nil && h.Blocks != nil && relPkg(h) == "store" {
+		}
+		if d > 0 {
+			for _, call := range callInstrs(g) {
+				if h := staticCallee(call); h != nil && h.Blocks != nil && relPkg(h) == "store" && !isNewFunc(h) {
 					visit(h, d-1)
 				}
 			}
@@ -46,13 +46,15 @@ func init() {
 			return
 		}
 		fk := funcKey(f)
+		inner := map[ssa.CallInstruction]ssa.CallInstruction{} // site in f -> the matched write (in f or in a later-introduced helper)
 		find := func(re string) ssa.CallInstruction {
-			cs := w.callsMatching(f, re)
+			cs := w.deepCallsMatching(f, 2, re)
 			if len(cs) != 1 {
 				c.Fail(fk+" :: single step "+re, w.pos(f.Pos()), fmt.Sprintf("%d call sites match %s", len(cs), re))
 				return nil
 			}
-			return cs[0]
+			inner[cs[0].site] = cs[0].call
+			return cs[0].site
 		}
 		steps := []struct {
 			name, re string
@@ -84,7 +86,16 @@ func init() {
 		if last := calls[len(calls)-1]; last != nil {
 			qq := &pathQ{target: func(in ssa.Instruction) bool {
 				cc, ok := in.(ssa.CallInstruction)
-				return ok && regexp.MustCompile(`\.db\.(Set|SetSync|Delete)\(|\.saveBlockPart\(|\.SaveSeenCommit\(`).MatchString(w.callStr(cc))
+				if ok && regexp.MustCompile(`\.db\.(Set|SetSync|Delete)\(|\.saveBlockPart\(|\.SaveSeenCommit\(`).MatchString(w.callStr(cc)) {
+					return true
+				}
+				// a later-introduced helper that writes
+				if ok {
+					if h := staticCallee(cc); h != nil && isNewFunc(h) && len(w.deepCallsMatching(h, 1, `\.db\.(Set|SetSync|Delete)\(`)) > 0 {
+						return true
+					}
+				}
+				return false
 			}}
 			hit, _ := qq.reach(last.Block(), instrIndex(last)+1)
 			c.Check(hit == nil, fk+" :: the range descriptor is the last write", w.ipos(last), "no store write after saveState", "a write happens after the range descriptor was persisted: a crash in between leaves the advertised tip incomplete ("+describeHit(w, hit)+")")
@@ -101,6 +112,18 @@ func init() {
 				continue
 			}
 			prev := calls[i]
+			if in := inner[prev]; in != nil && in != prev {
+				// the write sits in a helper: the helper returns only behind the write's nil error (it panics otherwise)
+				h := in.Parent()
+				okH := true
+				for _, r := range returnsOf(h) {
+					if ok, _ := c.ge().guardedLocal(h, r, Guard{Name: "written", Match: func(w *World, f *ssa.Function, a Atom) bool { return a.Kind == "nil" && atomCall(a) == in }}, 1); !ok {
+						okH = false
+					}
+				}
+				c.Check(okH, fk+" :: "+steps[i+1].name+" <= "+steps[i].name+" was written", w.ipos(calls[i+1]), "the write helper returns only on success", "the write helper can return although the write failed")
+				continue
+			}
 			c.guards(f, calls[i+1], fk+" :: "+steps[i+1].name, 0, Guard{Name: steps[i].name + " was written", Match: func(w *World, f *ssa.Function, a Atom) bool {
 				return a.Kind == "nil" && atomCall(a) == prev
 			}})
@@ -135,18 +158,26 @@ func init() {
 				flush = a
 			}
 		}
+		if flush == nil {
+			// the flush step as a named function of the store instead of a closure
+			for _, call := range callInstrs(f) {
+				if h := staticCallee(call); h != nil && h.Blocks != nil && relPkg(h) == "store" && len(h.Params) > 0 && len(w.callsMatching(h, `\.WriteSync\(\)$`)) > 0 {
+					flush = h
+				}
+			}
+		}
 		if !c.Check(flush != nil, fk+" :: flush step found", w.pos(f.Pos()), "closure writing the batch", "no closure that writes the batch found") {
 			return
 		}
 		for _, ws := range w.callsMatching(flush, `\.WriteSync\(\)$`) {
 			ok1, _ := mustPrecede(flush, ws, func(in ssa.Instruction) bool {
 				st, ok := in.(*ssa.Store)
-				return ok && w.expr(st.Addr) == "bs.base" && w.expr(st.Val) == "base"
+				return ok && strings.HasSuffix(w.expr(st.Addr), ".base") && st.Val == ssa.Value(flush.Params[len(flush.Params)-1])
 			})
 			ok2, _ := mustPrecede(flush, ws, w.callPred("store#BlockStore.saveState"))
 			c.Check(ok1 && ok2, fk+" :: base moved and persisted before the batch is written", w.ipos(ws), "bs.base = base; saveState(); batch.WriteSync()", "the batch can be written before the new base is persisted")
 		}
-		c.Check(c.ge().ensures(flush, guardRe("batch written", `^nil\(batch\.WriteSync\(\)\)$`), 2), fk+" :: flush reports batch write errors", w.pos(flush.Pos()), "nil only if WriteSync succeeded", "flush can succeed although the batch write failed")
+		c.Check(c.ge().ensures(flush, guardRe("batch written", `^nil\(\w+\.WriteSync\(\)\)$`), 2), fk+" :: flush reports batch write errors", w.pos(flush.Pos()), "nil only if WriteSync succeeded", "flush can succeed although the batch write failed")
 		// arguments of the flush calls
 		n := 0
 		for _, call := range callInstrs(f) {
